@@ -1,4 +1,5 @@
 import FastorModel.Proofs.LURec
+import FastorModel.Proofs.LUUnrolled
 /-
   `lu_block_dispatcher`: one block step for an arbitrary split point, and all sizes of the recursive and blocked classes by
   strong induction on the size.
@@ -188,10 +189,9 @@ theorem blockSplit_bounds' (n : Nat) (h : 32 < n) : 16 ≤ blockSplit n ∧ bloc
   split <;> omega
 
 /-- "the strategy is defined on A": every pivot the block strategy divides by (inside the recursive kernels, and the diagonal
-of `U11` inverted by `tinverse`) is non-zero.  Same recursion as `luBlock`.  Sizes ≤ 8 (the unrolled kernels) are not
-described here (`True`): see `lufactUnrolled`. -/
+of `U11` inverted by `tinverse`) is non-zero.  Same recursion as `luBlock`. -/
 def BlockDefined (ops : InvOps K) (n : Nat) (A : Mat K) : Prop :=
-  if h8 : n ≤ 8 then True
+  if h8 : n ≤ 8 then UnrolledDefined n A
   else if h32 : n ≤ 32 then RecDefined n A
   else
     let N := blockSplit n
@@ -211,16 +211,20 @@ decreasing_by
   all_goals simp only [blockSplit]
   all_goals split <;> omega
 
-/-- `lu_block_dispatcher` for EVERY size of the recursive (9..32) and blocked (33..64, > 64) classes -/
+/-- `lu_block_dispatcher` for EVERY size: the unrolled (1..8), recursive (9..32) and blocked (33..64, > 64) classes -/
 theorem luBlock_isLU (ops : InvOps K) (hops : InvSpec ops) :
-    ∀ n, 8 < n → ∀ (A L0 U0 : Mat K),
+    ∀ n, ∀ (A L0 U0 : Mat K),
       (∀ i j, i < n → j < n → i < j → L0.get i j = 0) → (∀ i j, i < n → j < n → j < i → U0.get i j = 0) →
       BlockDefined ops n A → IsLU n A (luBlock ops n A L0 U0).1 (luBlock ops n A L0 U0).2 := by
   intro n
   induction n using Nat.strong_induction_on with
   | _ n ih =>
-    intro h8 A L0 U0 hL0 hU0 hdef
-    have h8' : ¬ n ≤ 8 := by omega
+    intro A L0 U0 hL0 hU0 hdef
+    by_cases h8 : n ≤ 8
+    · rw [luBlock, dif_pos h8]
+      rw [BlockDefined, dif_pos h8] at hdef
+      exact lufactUnrolled_isLU n A hdef
+    have h8' : ¬ n ≤ 8 := h8
     by_cases h32 : n ≤ 32
     · rw [luBlock, dif_neg h8', dif_pos h32]
       rw [BlockDefined, dif_neg h8', dif_pos h32] at hdef
@@ -238,7 +242,7 @@ theorem luBlock_isLU (ops : InvOps K) (hops : InvSpec ops) :
         intro m hm1 hm2 B hB
         by_cases h64 : m ≤ 64
         · simp only [h64, if_true] at hB ⊢
-          exact ih m hm2 (by omega) B _ _ (z1 m) (z2 m) hB
+          exact ih m hm2 B _ _ (z1 m) (z2 m) hB
         · simp only [h64, if_false] at hB ⊢
           exact luRecursive_isLU m (by omega) B _ _ hB
       have h11 := sub (blockSplit n) b1 b2 _ d11
